@@ -84,7 +84,7 @@ def generate(tier, seed):
             for deg in range(0, pts):
                 for shape in ("scalar", "1d", "2d"):
                     dxs = [("pow2", float(2.0 ** int(m))) for m in
-                           rng.choice(np.arange(-12, 6), size=nrand, replace=False)]
+                           rng.choice(np.arange(-12, 6), size=min(nrand, 18), replace=False)]
                     dxs += [("pow10", float(10 ** rng.uniform(-8, 2))) for _ in range(nrand)]
                     if pl == "none":
                         dxs.append(("default", None))
